@@ -35,7 +35,7 @@ const EQUAL_SPELLINGS: [&[&str]; 5] = [
 
 fn digits() -> &'static Vec<String> {
     static D: std::sync::OnceLock<Vec<String>> = std::sync::OnceLock::new();
-    D.get_or_init(|| gv::digits_and_separators(4))
+    D.get_or_init(|| gv::digits_and_separators(5))
 }
 
 fn version(r: &mut Rng) -> String {
@@ -395,9 +395,35 @@ pub fn run(cx: &mut Cx) {
         let mode = r.below(6);
         let pool: Vec<String> = match mode {
             5 => {
-                // digits and separators only, up to four tokens
+                // digits and separators only, up to five tokens
+                // (one of them, the same with a zero-valued token respelt - equal
+                // in value - and two others)
                 let c = digits();
-                (0..4).map(|_| r.pick(c).clone()).collect()
+                let dotted = |v: &String| v.starts_with(|c: char| c.is_ascii_digit()) && v.bytes().all(|b| b.is_ascii_digit() || b == b'.');
+                // half of the time plain dotted numbers only ("1.0.7", "1...7"):
+                // what a reader that splits at dots takes for itself
+                let plain = r.chance(1, 2);
+                let v = loop {
+                    let v = r.pick(c).clone();
+                    if !plain || dotted(&v) {
+                        break v;
+                    }
+                };
+                let mut z = gv::zero_swaps(&v);
+                if plain && z.iter().any(|w| dotted(w)) {
+                    z.retain(|w| dotted(w));
+                }
+                let mut pool = vec![v];
+                for _ in 0..2 {
+                    if !z.is_empty() {
+                        pool.push(r.pick(&z).clone());
+                    }
+                }
+                pool.push(r.pick(c).clone());
+                if dotted(&pool[0]) && pool[1..pool.len() - 1].iter().any(|w| dotted(w) && *w != pool[0]) {
+                    cx.ev.count("lists/digits-and-dots-with-an-equal-valued-respelling");
+                }
+                pool
             }
             0 => {
                 let stem = if r.chance(1, 2) { format!("{}.{}", r.below(3), r.below(3)) } else { gv::v_safe(&mut r) };
